@@ -278,7 +278,7 @@ func (rs *rufState) emitLemmas(p *Printer) {
 			nLin++
 		}
 	}
-	useWit := nLin*len(wit) <= 6000
+	useWit := nLin*len(wit) <= 6000 && !p.Light
 	for _, in := range rs.insts {
 		switch in.kind {
 		case "add", "rnd":
@@ -329,6 +329,9 @@ func (rs *rufState) emitLemmas(p *Printer) {
 				rs.lemma(p, "L3", fmt.Sprintf("(and (=> (<= %s %s) (<= %s %s)) (=> (>= %s %s) (>= %s %s)))", in.e, z, in.r, z, in.e, z, in.r, z))
 			}
 		}
+	}
+	if p.Light {
+		return
 	}
 	// pairwise lemmas: L2 sign symmetry, L6 monotonicity
 	byKind := map[string][]*rufInst{}
